@@ -85,7 +85,7 @@ def run_check(modname: str, tier: str, replay: str | None = None) -> int:
         return 1 if (fails or div) else 0
 
     # 1. proof obligations
-    proofs = core.check_proofs(mod.PROP_FILE, mod.THEOREMS)
+    proofs = core.check_proofs(mod.PROP_FILE, mod.THEOREMS, getattr(mod, 'DRIVER', None))
     for b in proofs.broken:
         sys.stderr.write(f"[proof] {b}\n")
 
